@@ -287,6 +287,33 @@ pub fn stages(ctx: &Ctx, strict: bool) {
             })
     };
     ctx.prop_stage("skrifa-bytecode", Isolation::Procs, ctx.n(40_000, 400_000), bstrat, |c, s| test_sk(&ix, c, s, strict));
+    // (2c) structurally valid fonts with hostile values (extreme coordinates / metrics / upem / transforms, several
+    // limit-valued gvar tuples active at once, generated prep), driven like any other font
+    let hstrat = || (crate::hostile::strategy(), skargs_strategy()).prop_map(|(font, args)| HostileCase { font, args });
+    ctx.prop_stage("hostile-values", Isolation::Procs, ctx.n(40_000, 400_000), hstrat, |c: &HostileCase, s| {
+        let bytes = crate::hostile::build(&c.font);
+        // coordinates: the peaks of the font's own tuples first (all tuples active), then the generated record
+        let mut args = c.args.clone();
+        if args.coord_len == 4 && !c.font.tuples.is_empty() {
+            args.coord_bits = c.font.tuples[0].0.clone();
+        }
+        let o = match guard::catch(|| skdrive::drive_file(&bytes, None, &args)) {
+            Ok(o) => o,
+            Err(p) => {
+                if strict && !p.is_overflow_or_assert() {
+                    s.class(&format!("non_overflow_panic_ignored(strict):{}", guard::rel_file(&p.file)));
+                    return Ok(());
+                }
+                return Err(Fail::from_panic(&p));
+            }
+        };
+        s.class_n("draws", o.draws);
+        s.class_n("draws_ok", o.draws_ok);
+        if o.opened && o.draws_past_validation > 0 {
+            s.nontrivial(hash_json(c));
+        }
+        Ok(())
+    });
     // (3) IFT client
     ctx.prop_stage("ift", Isolation::Procs, ctx.n(150_000, 1_500_000), ift_strategy, |c, s| test_ift(&ix, c, s, strict));
     // (3b) deep child-index DAGs (conjunctive / disjunctive): selection must stay polynomial in the map size
@@ -354,4 +381,10 @@ pub fn stages(ctx: &Ctx, strict: bool) {
 #[derive(Clone, Debug, Serialize, Deserialize)]
 pub struct RawIft {
     pub raw_hex: String,
+}
+
+#[derive(Clone, Debug, Serialize, Deserialize)]
+pub struct HostileCase {
+    pub font: crate::hostile::HostileFont,
+    pub args: SkArgs,
 }
